@@ -252,7 +252,7 @@ func runC17(c *Ctx) {
 	c.Floor("C17.G3-order", 3)
 
 	// ---- G4 per-context index ----------------------------------------------------------------------
-	idxFn := c.Func(pcachePkg, "apiToCacheInfo")
+	idxFn := c.RoleFn("pcache.index")
 	if idxFn == nil {
 		c.Unk("C17.G4-context-index", "pcache.apiToCacheInfo", token.NoPos, "not found")
 	} else {
